@@ -470,6 +470,13 @@ func (in *inst) selectStmt(n *ast.SelectStmt) *ast.BlockStmt {
 		clauses = append(clauses, &ast.CaseClause{List: []ast.Expr{&ast.BasicLit{Kind: token.INT, Value: strconv.Itoa(idx)}}, Body: body})
 		idx++
 	}
+	if hasDefault == "false" {
+		// a select whose clauses all end in terminating statements is itself a
+		// terminating statement; a switch is one only with a default clause.
+		// Select never returns an index outside the clauses.
+		clauses = append(clauses, &ast.CaseClause{List: nil, Body: []ast.Stmt{
+			&ast.ExprStmt{X: &ast.CallExpr{Fun: ast.NewIdent("panic"), Args: []ast.Expr{&ast.BasicLit{Kind: token.STRING, Value: strconv.Quote("simrt: select returned no clause")}}}}}})
+	}
 	args := append([]ast.Expr{site, ast.NewIdent(hasDefault)}, cases...)
 	pre = append(pre, &ast.AssignStmt{Lhs: []ast.Expr{sel}, Tok: token.DEFINE, Rhs: []ast.Expr{in.call("Select", args...)}})
 	// `_ = sel` keeps the result "used" when there are no receive bindings
